@@ -398,6 +398,16 @@ func main() {
 		}
 	}
 	addSeq(big[1], big[0], big[2], small[3]) // > 512 bytes: bufio window wraps
+	// every byte value where a marker is expected: alone, before a frame, between two frames
+	for b := 0; b < 256; b++ {
+		if b == 0xFD || b == 0xFE {
+			continue
+		}
+		one := piece{fmt.Sprintf("byte%02x", b), []byte{byte(b)}, true}
+		addSeq(one)
+		addSeq(one, small[2])
+		addSeq(small[0], one, one, small[3])
+	}
 	var fsts []st
 	for i, s := range sts {
 		if i < len(small) || (i >= nsmall) || i%9 == 0 {
